@@ -83,9 +83,16 @@ package tss
 //@ loop 0: invariant forall a, b :: 0 <= a && a < b && b < #i ==> memberList[a] != memberList[b]
 //@ loop 0: invariant optimizedable <==> (forall j :: 0 <= j && j < #i ==> memberList[j] <= 20)
 //@ loop 0: invariant isInList <==> (exists j :: 0 <= j && j < #i && memberList[j] == mid)
-// Lagrange coefficient of a member id within a set of ids (table / generic formula): abstract
+// Lagrange coefficient of a member id within a set of ids. Its value is abstract (named for the callers); what is verified
+// is the DISPATCH: the table routine is entered only with every id within the table (its precondition, below), every other
+// accepted committee - any id above 20 - goes through the general routine.
+//@ func computeLagrangeCoefficientOp
+//@ requires mid <= 20 && (forall j :: 0 <= j && j < len(memberList) ==> memberList[j] <= 20)
+//@ loop 0: invariant len(mids) == #i && (forall j :: 0 <= j && j < #i ==> mids[j] == memberList[j])
 //@ func ComputeLagrangeCoefficient
-//@ abstract
+//@ names result == absfn("ComputeLagrangeCoefficient#0", mid, memberList) && err == absfn("ComputeLagrangeCoefficient#1", mid, memberList)
+//@ ensures err == nil ==> (exists j :: 0 <= j && j < len(memberList) && memberList[j] == mid)
+//@ loop 0: invariant len(mids) == #i && (forall j :: 0 <= j && j < #i ==> mids[j] == wrap64(memberList[j]))
 // group public nonce = sum of the assigned members' public nonces (curve arithmetic: abstract)
 //@ func ComputeGroupPublicNonce
 //@ abstract
